@@ -507,6 +507,20 @@ def stepSil (cfg : Cfg) (σ : Inst) (op obs : List String) : Option (Inst × Lis
   -- a Mutes call whose context is already cancelled (client gone, flush deadline passed): Silences.Query does not
   -- consult the context, the call is an ordinary one
   -- the real Maintenance loop: a tick / the shutdown run is a GC (plus a snapshot file); the next start loads that file
+  | ["bulkgc", n] =>
+    -- AM.Silence.gc_removes_after_retention / gc_never_removes_pending_or_active / query_eq_filter at scale: n expired
+    -- silences go, the 3 active ones stay listed (by state, by id, and muting), and are collected after their own retention
+    match obs with
+    | [removed, listed, byId, muted, removed2, left] =>
+      some (σ,
+        (if removed = n then [] else [Msg.propfail "gc_removes_after_retention" "bulk-gc-count" s!"{n} silences past end+retention, GC removed {removed}"])
+        ++ (if listed = "3" ∧ byId = "3" ∧ muted = "3" then [] else
+              [Msg.propfail "gc_never_removes_pending_or_active" "bulk-gc-lost-survivors"
+                s!"after GC removed {removed} of {n}+3 silences the 3 active ones are: listed by state {listed}, found by id {byId}, muting {muted}"])
+        ++ (if removed2 = "3" ∧ left = "0" then [] else
+              [Msg.propfail "gc_removes_after_retention" "bulk-gc-survivors-never-collected" s!"11 h later GC removed {removed2}, {left} silences left"])
+        ++ [.tag "bulkgc"])
+    | _ => some (σ, [.diff "bulkgc" "6 tokens" (" ".intercalate obs)])
   | ["mtick", now] => (stepCommon cfg σ ["gc", now] obs).map fun (σ', m) => (σ', m ++ [.tag "maintenance:tick"])
   | ["mstop", now] => (stepCommon cfg σ ["gc", now] obs).map fun (σ', m) => (σ', m ++ [.tag "maintenance:shutdown"])
   | ["mload"] => (stepCommon cfg σ ["reload"] obs).map fun (σ', m) => (σ', m ++ [.tag "maintenance:start-from-file"])
